@@ -18,7 +18,7 @@ META = {
                    "the grouping of `a op1 b op2 c` is decided, for all 23x23 operator pairs, by comparing numbers that engine T "
                    "reads off the MIR of infix_bp/prefix_bp. The oracle is Gleam's published precedence table (all binary "
                    "operators left-associative, unary tighter than any binary). G3 catches a dispatcher arm that no guarded "
-                   "call site can reach (valid programs rejected).",
+                   "call site can reach (valid programs rejected). G12 = C14 U12 (engine U). G13 = C02 P5a (a well-formed expression below the nesting limit is not refused: the wrap budget is charged only where an operator follows).",
     "not_decided": "statement/item boundaries, label look-ahead, `type =` look-ahead; that an accessor returns the right child in every position (G4/G5 decide overlap and coverage by node kind, not by position); lexemes other than the number forms of G6.",
     "trusted_base": ["Gleam's operator precedence table as encoded in ORACLE", "rustc MIR + const evaluation"],
     "assumptions": [],
